@@ -216,10 +216,18 @@ def main():
         res = json.load(open(out))
         os.unlink(out)
     failures = list(res['failures']) if res else []
+    last = None
+    if os.path.exists(out + '.last'):
+        try:
+            last = open(out + '.last', 'rb').read().decode('utf-8', 'replace').strip() or None
+        except OSError:
+            pass
+        os.unlink(out + '.last')
     if res is None:
         failures.append(dict(kind='crash', site='harness', input_class=f'exit={rc}',
-                             what=f'property harness died with status {rc} before writing a result (interpreter crash?)',
-                             repro=None, detail=None, count=1))
+                             what=f'the interpreter running the property harness died with status {rc} (abort / failed assertion / segfault '
+                                  f'in the code under test); last case seen: {last}',
+                             repro=None, detail=dict(last_case=last), count=1))
 
     known = [k for k in load_known() if k.get('property') == prop and k.get('status') == 'open']
     violations, known_hits = [], []
